@@ -129,6 +129,9 @@ def make_generated(rng, wd, name, nlayers):
     g, c = models.write_model(m, d, fmt="tri", stem=name)
     r0 = radii[0]
     pos, mom = models.dipoles_in_ball(rng, rng.randint(2, 4), (0, 0, 0), r0, 0.7)
+    for _ in range(2):            # dipoles close to the inner interface: adaptive integration must matter (DSM vs DSMNA)
+        u = models.random_unit(rng); e = rng.uniform(0.9, 0.98)
+        pos.append(tuple(r0 * e * x for x in u)); mom.append(models.random_unit(rng))
     f = dict(geom=g, cond=c, domain="D0", iface="I0", nested=True, ndip=len(pos), radii=radii)
     f["dip"] = os.path.join(d, "dipoles.dip"); models.write_dipoles(f["dip"], pos, mom)
     ne = rng.randint(3, 6)
@@ -217,7 +220,7 @@ class Runner:
     def __init__(self, ck, bdir, hb, tools):
         self.ck = ck; self.bdir = bdir; self.hb = hb; self.tools = tools
         self.tidx = {t["name"]: k for k, t in enumerate(tools)}
-        self.cases = []; self.dist = {}; self.nrej = 0
+        self.cases = []; self.dist = {}; self.nrej = 0; self.skipped = []
 
     def add(self, **c):
         c.setdefault("outs", []); c.setdefault("hcase", None); c.setdefault("probe", None)
@@ -229,7 +232,20 @@ def block_of(tool, first_alias):
         if b["aliases"][0] == first_alias: return k, b
     return None, None
 
+def documented_noadapt(tool, alias):
+    """documented meaning of an alias of the dipole source matrix option: the names the help text lists compute the
+    (adaptive) library default DipSourceMat(geo,dipoles,domain); the ...NoAdapt / ...NA / ...na names switch the adaptive
+    integration off.  Deliberately NOT taken from the alias subset found in the source."""
+    if any(alias in g for g in tool.get("documented", [])): return False
+    return alias.lower().endswith(("noadapt", "na"))
+
 def build_option_case(R, tool, bname, alias, files, outdir, suffix, with_optional, cm_mode=None, old=False, tag=""):
+    try:
+        return build_option_case_(R, tool, bname, alias, files, outdir, suffix, with_optional, cm_mode, old, tag)
+    except KeyError as e:          # an input of this option is produced by a tool that is not available in this run
+        R.skipped.append("%s %s: no %s file" % (tool["name"], alias, e)); return None
+
+def build_option_case_(R, tool, bname, alias, files, outdir, suffix, with_optional, cm_mode=None, old=False, tag=""):
     """command line for one option following the documented parameter order; returns the case dict"""
     doc = DOC[tool["name"]][bname]
     bidx, blk = block_of(tool, bname)
@@ -267,7 +283,7 @@ def build_option_case(R, tool, bname, alias, files, outdir, suffix, with_optiona
         if op == "HM": h = [op, hargs["geom"], hargs["cond"], hargs["out"], o]
         elif op == "SSM": h = [op, hargs["geom"], hargs["cond"], hargs["srcmesh"], hargs["out"], o]
         elif op == "DSM":
-            adapt = "0" if alias in blk["variant"] else "1"
+            adapt = "0" if documented_noadapt(tool, alias) else "1"
             h = [op, hargs["geom"], hargs["cond"], hargs["dip"], hargs["out"], hargs["domain"], adapt, o]
         elif op == "EITSM": h = [op, hargs["geom"], hargs["cond"], hargs["eit"], hargs["out"], o]
         elif op == "H2EM": h = [op, hargs["geom"], hargs["cond"], hargs["elec"], hargs["out"], o]
@@ -283,7 +299,7 @@ def build_option_case(R, tool, bname, alias, files, outdir, suffix, with_optiona
     post = ["-old-ordering"] if old == "after" else []
     npar = len(args) - 1
     return R.add(tool=tool["name"], args=pre + args + post, off=len(pre), expect="ok", block=bidx, bname=bname, alias=alias, npar=npar, old=bool(old),
-                 loads_geometry=("geom" in rolepos),
+                 loads_geometry=("geom" in rolepos), want_variant=(1 if documented_noadapt(tool, alias) else 0) if doc["op"] == "DSM" else None,
                  rolepos=rolepos, outs=outs, hcase=" ".join(h), cls="option", model=files["name"], suffix=suffix,
                  desc="%s %s on %s%s%s%s" % (tool["name"], alias, files["name"], " +optional" if with_optional else "", (" " + cm_mode) if cm_mode else "", " -old-ordering" if old else ""))
 
@@ -302,7 +318,7 @@ def gen_corpus(R, fsets):
             blk = [b for b in t["blocks"] if alias in b["aliases"]]
             if not blk or blk[0]["aliases"][0] not in DOC.get(t["name"], {}): continue       # alias gone: the documented-alias check reports it
             c = build_option_case(R, t, blk[0]["aliases"][0], alias, fs, fs["dir"], w[4], w[3] == "1", tag="_corpus%d" % n)
-            c["desc"] = "corpus: " + c["desc"]
+            if c: c["desc"] = "corpus: " + c["desc"]
         elif w[0] == "reject":
             args = []
             for a in w[2:]:
@@ -325,7 +341,7 @@ def gen_cases(R, rng, quick, wd, fsets):
                                ("-EITSourceMat", "eitsm"), ("-SurfSourceMat", "ssm"), ("-SurfSource2MEGMat", "ss2mm")]:
                 if block_of(ta, bname)[1] is None: continue
                 c = build_option_case(R, ta, bname, bname, fs, od, ".bin", False, tag="_canon")
-                fs[key] = c["outs"][0][0]
+                if c: fs[key] = c["outs"][0][0]
         if "om_minverser" in tools and "hm" in fs:
             out = os.path.join(od, "hminv_canon.bin"); fs["hminv"] = out
             R.add(tool="om_minverser", args=[fs["hm"], out], off=0, expect="ok", outs=[(out, os.path.join(od, "ref_hminv_canon.bin"), "sym")],
@@ -392,6 +408,9 @@ def gen_pipeline(R, rng, fsets):
         if tg and all(k in fs for k in ("hminv", "dsm", "h2em", "h2mm", "ds2mm")):
             c = build_option_case(R, tg, "-EEG", "-EEG", fs, od, ".bin", False, tag="_canon"); fs["gain_eeg"] = c["outs"][0][0]
             c = build_option_case(R, tg, "-MEG", "-MEG", fs, od, ".bin", False, tag="_canon"); fs["gain_meg"] = c["outs"][0][0]
+            if "om_assemble" in tools and block_of(tools["om_assemble"], "-DipSourceMat")[1] is not None:
+                R.add(tool=None, args=[], off=0, expect="ok", outs=[], hcase="DSMDIFF %s %s %s" % (fs["geom"], fs["cond"], fs["dip"]), cls="nonvacuous", model=fs["name"], suffix="",
+                      sym="adaptive vs non-adaptive dipole source matrix", desc="DipSourceMat with and without adaptive integration must differ on %s (else the -DSM/-DSMNA cases are vacuous)" % fs["name"])
             pe, pm = os.path.join(od, "ref_pipe_eeg.bin"), os.path.join(od, "ref_pipe_meg.bin")
             R.add(tool=None, args=[], off=0, expect="ok", outs=[(fs["gain_eeg"], pe, "matrix"), (fs["gain_meg"], pm, "matrix")],
                   hcase="PIPE %s %s %s %s %s %s %s" % (fs["geom"], fs["cond"], fs["dip"], fs["elec"], fs["squids"], pe, pm),
@@ -650,7 +669,7 @@ def gen_documented(R, rng, fsets):
             for a in missing:
                 fs = fsets[0]
                 c = build_option_case(R, t, owner[0]["aliases"][0], a, fs, fs["dir"], ".bin", False, tag="_documented")
-                c["cls"] = "documented-alias"
+                if c: c["cls"] = "documented-alias"
 
 # ------------------------------------------------------------------------------------------------ evaluation
 def via_library(c, po, kind):
@@ -736,6 +755,10 @@ def evaluate(ck, R, c, pred, rc, txt, before, after, hres):
             P("missing input file ignored", "the %s file (parameter %d) does not exist but the tool succeeded: it is read from another position" % (r, p))
         if any(os.path.exists(q) for q in c["probe_outs"]):
             P("output written although an input is missing", "outputs: %s" % [os.path.basename(q) for q in c["probe_outs"] if os.path.exists(q)])
+    if c.get("want_variant") is not None and pred is not None and not pred.get("absent") and pred["final"] == "run" and pred["execs"]:
+        if pred["execs"][0]["variant"] != c["want_variant"]:
+            P("alias selects another variant than documented", "according to the generated table %s %s the adaptive integration; documented: %s" % (
+                c["alias"], "switches off" if pred["execs"][0]["variant"] else "keeps", "non adaptive" if c["want_variant"] else "adaptive (library default)"))
     if c.get("loads_geometry") and pred is not None and not pred.get("absent") and pred["final"] == "run" and pred.get("orderings") is not None:
         if not pred["orderings"] or any(o != (1 if c.get("old") else 0) for o in pred["orderings"]):
             P("-old-ordering does not reach the geometry", "OLD_ORDERING handed to the Geometry constructors of the block according to the generated table: %s, flag on the command line: %s" % (pred["orderings"], bool(c.get("old"))))
@@ -774,8 +797,19 @@ def main(replay=None):
     ck.log("prepared at %.1fs" % (time.time() - ck.t0))
     tcli = load_translator()
     tools, problems = tcli.parse_all(REPO)
-    R = Runner(ck, bdir, hb, tools)
-    fill_documented_roles(ck, tools)
+    # a tool the translator can not read (reported above as a translator problem) is still run differentially, on the
+    # command lines of the last table that could be read (translators/cli_snapshot.json); it gets no model prediction
+    snap_used = []
+    parsed_names = [t["name"] for t in tools]
+    try: snap = json.load(open(os.path.join(core.VERIF, "translators", "cli_snapshot.json")))
+    except (OSError, ValueError): snap = []
+    gen_tools_list = list(tools)
+    for t in snap:
+        if t["name"] not in parsed_names:
+            t["unparsed"] = True; gen_tools_list.append(t); snap_used.append(t["name"])
+    R = Runner(ck, bdir, hb, gen_tools_list)
+    R.tidx = {n: k for k, n in enumerate(parsed_names)}
+    fill_documented_roles(ck, gen_tools_list)
     rng = ck.rng; wd = ck.workdir
     fsets = [make_generated(rng, wd, "m3", 3), make_generated(rng, wd, "m0", 2)]
     h1 = make_head1(rng, wd)
@@ -834,7 +868,7 @@ def main(replay=None):
     rc2, cout, _ = core.run_harness(hb, [x[1] for x in cmpc], wd, tag="cmp") if cmpc else (0, [], "")
     ck.log("harness done at %.1fs" % (time.time() - ck.t0))
     # ---- decide
-    nviol = 0; dist = {}; aliases_seen = set(); samples = []; reassoc = []; nontriv = set()
+    nviol = 0; dist = {}; aliases_seen = set(); samples = []; reassoc = []; nontriv = set(); nonvac = []
     for c in keep:
         dist[c["cls"].split(":")[0]] = dist.get(c["cls"].split(":")[0], 0) + 1
         if c.get("alias"): aliases_seen.add((c["tool"], c["alias"]))
@@ -843,6 +877,14 @@ def main(replay=None):
         if report_only and sym != report_only: continue
         pred = preds.get(c["id"]); rc, txt, before, after = runs.get(c["id"], (0, "", {}, {}))
         h = hres.get(c["id"])
+        if c["cls"] == "nonvacuous":
+            try: dv = float(h.split()[1])
+            except (ValueError, IndexError, AttributeError): dv = -1.0
+            nonvac.append("%s %s" % (c["model"], h))
+            if not dv > 1e-3:
+                ck.violation("vacuous DSM/DSMNA comparison on " + c["model"], "adaptive and non-adaptive DipSourceMat differ by %s only on the dipoles of %s: the alias families can not be told apart" % (h, c["model"]),
+                             dict(kind="generator", hcase=c["hcase"]), found_input=False)
+            continue
         if c["cls"] == "reassoc":
             reassoc.append(h)
             try:
@@ -904,7 +946,7 @@ def main(replay=None):
                   samples=samples, op_distribution=dist, error_path_cases=nrej, error_path_fraction=round(nrej / max(1, len(keep)), 3),
                   aliases_in_table=len(all_aliases), aliases_exercised=len(aliases_seen & all_aliases),
                   traces_validated_against_impl=len(runs), harness_library_calls=len(hc), mat_comparisons=len(cmpc),
-                  reassociation_relative_difference=reassoc, check_geom_verdicts=cg, old_ordering_cases_compared=oldc,
+                  reassociation_relative_difference=reassoc, adaptive_vs_nonadaptive_dsm=nonvac, skipped_cases=R.skipped[:20], tools_from_snapshot=snap_used, check_geom_verdicts=cg, old_ordering_cases_compared=oldc,
                   library_call_fails_like_the_tool=sorted({"%s: %s" % (symbolic(c), c["consistent_failure"]) for c in keep if c.get("consistent_failure")}), table_offenders=offenders, translator_problems=problems)
     ck.cov["trusted_base"] += ["translator translators/t_cli.py (restricted C++ shapes; anything else is a reported problem)",
                                "hand-written Gallina model of commandline.h (coq/Geom/Cli.v) tied by running the executables built from the working tree on every generated command line",
